@@ -3,7 +3,7 @@ import json, urllib.parse
 from runner import Stream
 import vlib
 
-PROP_MODULES = ["Vlsp.Props.C15"]
+PROP_MODULES = ["Vlsp.Props.C15", "Vlsp.Props.C15Go"]
 RULE = ("the six real adapters (constructed with new(base_url)) against a scripted local HTTP server: generated bodies "
         "(arbitrary version sets, timestamps present/absent/garbled, yanked flags, tag maps, extra fields, wrong types at each "
         "position, truncated and non-JSON bodies) x status codes {200,201,204,301,304,400,401,403,404,410,418,429,500,502,503}; result "
